@@ -1474,6 +1474,10 @@ pub fn repl_cross_check(sc: &Scenario, ex: &Exec) -> Option<Viol> {
         // one terminal line holds 4 KiB; an unbalanced bracket makes the interactive mode wait
         // for a continuation line; `quit` / `exit` / `help` are commands there
         let bal = |a: char, b: char| l.matches(a).count() == l.matches(b).count();
+        // ... and the terminal interprets control characters (^C, ^U, DEL ...)
+        if l.chars().any(|c| c.is_control()) {
+            return None;
+        }
         if l.len() > 3900 || l.contains('\n') || !bal('(', ')') || !bal('[', ']') || !bal('{', '}') || matches!(l.trim(), "quit" | "exit" | "help") || l.contains("print(") {
             return None;
         }
